@@ -452,6 +452,12 @@ def c01_toy_sign(opts):
                             walked_off = False
                             break
                         kk += 1
+                    # does ANY nonce in [1, n-1] give a signature?  if none does, no signature exists for (d, z) on this toy
+                    # curve and refusing with ValueError is the correct outcome (the property only speaks about first nonces
+                    # that give non-zero r and s); TypeError etc. is still a violation
+                    exists = any((rc.mulG(k_)[0] % n) and (pow(k_, -1, n) * (z + (rc.mulG(k_)[0] % n) * d) % n) for k_ in range(1, n))
+                    if not usable and not exists and isinstance(e, ValueError):
+                        continue
                     if walked_off and not usable:
                         v("sign-retry-reaches-order", "sign raises %s: first nonce k0=%d gives r or s == 0 and the k+=1 retry loop reaches k = n (k*G = infinity)" % (type(e).__name__, k0),
                           (cid, d, z), repro)
